@@ -65,11 +65,16 @@ Lemma try_skip_phase1_spec ie :
   try_skip_phase1_gen true ie = if ie then (false, false) else (true, true).
 Proof. destruct ie; reflexivity. Qed.
 
-Lemma try_skip_phase2_spec ok ie oe :
-  try_skip_phase2_gen ok ie oe =
-  if ok then (if oe then (false, false, true, true) else (false, true, false, false))
-  else (true, false, false, false).
-Proof. destruct ok, ie, oe; reflexivity. Qed.
+(* holds for both reviewed shapes of try_skip_job: without the re-check of the input records
+   (skip_rechecks_inputs = false: `overtaken` is ignored) and with it *)
+Lemma try_skip_phase2_spec ok ie oe ov :
+  try_skip_phase2_gen ok ie oe ov =
+  if ok then (if oe then (if skip_rechecks_inputs && ov
+                          then (false, false, false, false, false, true, SS_PENDING, false)
+                          else (false, false, true, true, true, false, 0, false))
+              else (false, true, false, false, false, false, 0, false))
+  else (true, false, false, false, false, false, 0, false).
+Proof. destruct ok, ie, oe, ov; reflexivity. Qed.
 
 Lemma reset_to_pending_spec : reset_to_pending_gen = (true, true, true, SS_PENDING, false).
 Proof. reflexivity. Qed.
@@ -236,7 +241,7 @@ Lemma g_do_xtry_with_hash x t cancel sh :
     | NR_changed ch => (set_xhash (set_xb x (fail_new_run w1 t ch)) None, XRTry kn false)
     | NR_ok inp =>
         if inp_equal sh (x_envc x) inp then
-          if dyn_ready w then (set_xchk (set_xb x w1) (Some (mkChk sh (x_envc x) inp)), XRTry 2 false)
+          if dyn_ready w then (set_xchk (set_xb x w1) (Some (mkChk sh (x_envc x) inp (snapshot w))), XRTry 2 false)
           else (set_xb x (set_crow w1 SS_PENDING d (c_dc w)), XRTry 3 false)
         else (apply_reset x w1, XRTry kn false)
     end.
@@ -251,20 +256,40 @@ Proof.
 Qed.
 
 (* try_skip_job after the output hashing, as one case analysis. *)
+Definition rechecked (recheck : bool) (x : xworld) (k : chk) : bool :=
+  skip_rechecks_inputs && (recheck && overtaken (xb x) k).
+
+Lemma do_xchk_gen_spec recheck x t cancel k :
+  x_chk x = Some k ->
+  do_xchk_gen recheck x t cancel =
+    if cancel then (mkX (finalize_failed (xb x) t) None (x_outs x) (x_envc x) None, XRChk false)
+    else if pairs_eqb (sh_out (k_old k)) (out_ingredients x)
+         then if rechecked recheck x k
+              then (mkX (set_crow (xb x) SS_PENDING false (c_dc (xb x))) (x_hash x) (x_outs x) (x_envc x) None,
+                    XRChk false)
+              else (mkX (set_crow (xb x) SS_SUCCEEDED false 0)
+                        (Some (mkSH (k_env k) (k_inp k) (out_ingredients x))) (x_outs x) (x_envc x) None, XRChk true)
+         else (apply_reset x (xb x), XRChk false).
+Proof.
+  intros Hk. unfold do_xchk_gen, rechecked. rewrite Hk. rewrite try_skip_phase2_spec.
+  destruct cancel; cbn [negb]; [reflexivity|].
+  destruct (pairs_eqb _ _); [|reflexivity].
+  destruct (skip_rechecks_inputs && (recheck && overtaken (xb x) k)); [reflexivity|].
+  rewrite mark_completed_ok. reflexivity.
+Qed.
+
 Lemma do_xchk_spec x t cancel k :
   x_chk x = Some k ->
   do_xchk x t cancel =
     if cancel then (mkX (finalize_failed (xb x) t) None (x_outs x) (x_envc x) None, XRChk false)
     else if pairs_eqb (sh_out (k_old k)) (out_ingredients x)
-         then (mkX (set_crow (xb x) SS_SUCCEEDED false 0)
-                   (Some (mkSH (k_env k) (k_inp k) (out_ingredients x))) (x_outs x) (x_envc x) None, XRChk true)
+         then if rechecked skip_rechecks_inputs x k
+              then (mkX (set_crow (xb x) SS_PENDING false (c_dc (xb x))) (x_hash x) (x_outs x) (x_envc x) None,
+                    XRChk false)
+              else (mkX (set_crow (xb x) SS_SUCCEEDED false 0)
+                        (Some (mkSH (k_env k) (k_inp k) (out_ingredients x))) (x_outs x) (x_envc x) None, XRChk true)
          else (apply_reset x (xb x), XRChk false).
-Proof.
-  intros Hk. unfold do_xchk. rewrite Hk. rewrite try_skip_phase2_spec.
-  destruct cancel; cbn [negb]; [reflexivity|].
-  destruct (pairs_eqb _ _); [|reflexivity].
-  rewrite mark_completed_ok. reflexivity.
-Qed.
+Proof. exact (do_xchk_gen_spec skip_rechecks_inputs x t cancel k). Qed.
 
 (* ---- events of other actors ---- *)
 Definition xenv_only (e : xev) : bool := match e with XE _ | XEnvC _ | XHashDel => true | _ => false end.
@@ -348,17 +373,18 @@ Proof.
   unfold inp_equal in Hie. apply andb_true_iff in Hie as [Henv Hinp].
   apply N.eqb_eq in Henv. apply pairs_eqb_eq in Hinp.
   set (x1 := set_xchk (set_xb x0 (set_crow (xb x0) SS_CHECKING false (c_dc (xb x0))))
-                      (Some (mkChk sh (x_envc x0) (canon (snapshot (xb x0)))))) in *.
+                      (Some (mkChk sh (x_envc x0) (canon (snapshot (xb x0))) (snapshot (xb x0))))) in *.
   destruct (xrun_env_frame mid x1 Hmid) as [Hk [Ho Hrun]].
   assert (Hrun0 : c_run (xb x0) = None).
   { unfold dispatchable in Hd. apply andb_true_iff in Hd as [_ Hnr]. unfold is_running in Hnr.
     destruct (c_run (xb x0)); [discriminate|reflexivity]. }
   specialize (Hrun Hrun0).
   set (x2 := xrun mid x1) in *.
-  assert (Hk2' : x_chk x2 = Some (mkChk sh (x_envc x0) (canon (snapshot (xb x0))))) by (rewrite Hk; reflexivity).
+  assert (Hk2' : x_chk x2 = Some (mkChk sh (x_envc x0) (canon (snapshot (xb x0))) (snapshot (xb x0)))) by (rewrite Hk; reflexivity).
   rewrite (do_xchk_spec x2 t' false _ Hk2') in Hend. cbn [k_old k_env k_inp] in Hend.
   destruct (pairs_eqb (sh_out sh) (out_ingredients x2)) eqn:Hoe.
   2:{ rewrite apply_reset_spec in Hend. inversion Hend. }
+  destruct (rechecked skip_rechecks_inputs x2 _) eqn:Hrc; [inversion Hend|].
   apply pairs_eqb_eq in Hoe. inversion Hend; subst x3. clear Hend.
   assert (Houts : x_outs x2 = x_outs x0) by (rewrite Ho; reflexivity).
   exists sh. split; [exact Hh|]. split; [exact Henv|].
@@ -415,7 +441,7 @@ Theorem g_checking_outcomes x t x' k s sh :
    inp_equal sh (x_envc x) (canon (snapshot (xb x))) = true ->
      x_hash x' = Some sh /\
      (k = 2 -> c_state (xb x') = SS_CHECKING /\
-               x_chk x' = Some (mkChk sh (x_envc x) (canon (snapshot (xb x))))) /\
+               x_chk x' = Some (mkChk sh (x_envc x) (canon (snapshot (xb x))) (snapshot (xb x)))) /\
      (k = 3 -> c_state (xb x') = SS_PENDING /\ c_deferred (xb x') = d /\
                x_chk x' = x_chk x /\ (d = false -> x' = x))).
 Proof.
@@ -604,7 +630,7 @@ Lemma do_xtry_with_hash x t cancel sh :
     | NR_changed ch => (set_xhash (set_xb x (fail_new_run w1 t ch)) None, XRTry kn false)
     | NR_ok inp =>
         if inp_equal sh (x_envc x) inp then
-          if dyn_ready w then (set_xchk (set_xb x w1) (Some (mkChk sh (x_envc x) inp)), XRTry 2 false)
+          if dyn_ready w then (set_xchk (set_xb x w1) (Some (mkChk sh (x_envc x) inp (snapshot w))), XRTry 2 false)
           else (set_xb x (set_crow w1 SS_PENDING validate_unchanged_deferred (c_dc w)), XRTry 3 false)
         else (apply_reset x w1, XRTry kn false)
     end.
@@ -642,7 +668,7 @@ Theorem checking_outcomes x t x' k s sh :
    inp_equal sh (x_envc x) (canon (snapshot (xb x))) = true ->
      x_hash x' = Some sh /\
      (k = 2 -> c_state (xb x') = SS_CHECKING /\
-               x_chk x' = Some (mkChk sh (x_envc x) (canon (snapshot (xb x))))) /\
+               x_chk x' = Some (mkChk sh (x_envc x) (canon (snapshot (xb x))) (snapshot (xb x)))) /\
      (k = 3 -> c_state (xb x') = SS_PENDING /\ c_deferred (xb x') = validate_unchanged_deferred /\
                x_chk x' = x_chk x /\ (validate_unchanged_deferred = false -> x' = x))).
 Proof. exact (g_checking_outcomes validate_gen _ validate_spec x t x' k s sh). Qed.
@@ -687,12 +713,15 @@ Proof.
 Qed.
 
 (* skip_outcomes: try_skip_job after the output hashing.  The step becomes SUCCEEDED iff the hash
-   computation was not cancelled and the ingredient list of the stored output digest is the list of
-   the outputs as they are on disk now; a cancelled computation gives FAILED, a difference gives
-   PENDING without hash and without amended inputs. *)
+   computation was not cancelled, the ingredient list of the stored output digest is the list of the
+   outputs as they are on disk now, and (when the source re-reads the input records there:
+   skip_rechecks_inputs) no input record was overtaken since the job was created; a cancelled
+   computation gives FAILED, a different output digest gives PENDING without hash and without amended
+   inputs, an overtaken input record gives PENDING with the hash kept (the step is checked again). *)
 Theorem skip_outcomes x t cancel k :
   x_chk x = Some k ->
   let x' := fst (do_xchk x t cancel) in
+  let rc := rechecked skip_rechecks_inputs x k in
   x_chk x' = None /\ c_run (xb x') = c_run (xb x) /\
   (cancel = true ->
      c_state (xb x') = SS_FAILED /\ x_hash x' = None /\ snd (do_xchk x t cancel) = XRChk false /\
@@ -700,10 +729,13 @@ Theorem skip_outcomes x t cancel k :
   (cancel = false -> pairs_eqb (sh_out (k_old k)) (out_ingredients x) = false ->
      c_state (xb x') = SS_PENDING /\ c_deferred (xb x') = false /\ c_dyn (xb x') = [] /\ x_hash x' = None /\
      snd (do_xchk x t cancel) = XRChk false) /\
-  (cancel = false -> pairs_eqb (sh_out (k_old k)) (out_ingredients x) = true ->
+  (cancel = false -> pairs_eqb (sh_out (k_old k)) (out_ingredients x) = true -> rc = true ->
+     c_state (xb x') = SS_PENDING /\ c_deferred (xb x') = false /\ x_hash x' = x_hash x /\
+     snd (do_xchk x t cancel) = XRChk false) /\
+  (cancel = false -> pairs_eqb (sh_out (k_old k)) (out_ingredients x) = true -> rc = false ->
      c_state (xb x') = SS_SUCCEEDED /\ snd (do_xchk x t cancel) = XRChk true /\
      x_hash x' = Some (mkSH (k_env k) (k_inp k) (sh_out (k_old k))) /\ bk (xb x') = bk (xb x)) /\
-  (c_state (xb x') = SS_SUCCEEDED -> cancel = false /\ sh_out (k_old k) = out_ingredients x).
+  (c_state (xb x') = SS_SUCCEEDED -> cancel = false /\ sh_out (k_old k) = out_ingredients x /\ rc = false).
 Proof.
   intros Hk. cbv zeta. rewrite (do_xchk_spec x t cancel k Hk).
   destruct cancel.
@@ -713,17 +745,23 @@ Proof.
     split.
     { intros _. split; [exact Hs|]. split; [reflexivity|]. split; [reflexivity|].
       intros Hkg. rewrite Hdr, Hkg. apply orb_true_r. }
-    split; [intros H; discriminate H|]. split; [intros H; discriminate H|].
+    split; [intros H; discriminate H|]. split; [intros H; discriminate H|]. split; [intros H; discriminate H|].
     intros H. rewrite Hs in H. discriminate H.
   - destruct (pairs_eqb (sh_out (k_old k)) (out_ingredients x)) eqn:Hoe.
-    + cbn [fst snd xb x_chk x_hash]. split; [reflexivity|]. split; [reflexivity|].
-      split; [intros H; discriminate H|]. split; [intros _ H; discriminate H|].
-      apply pairs_eqb_eq in Hoe.
-      split; [intros _ _; rewrite Hoe; repeat split; reflexivity|]. intros _. split; [reflexivity|exact Hoe].
+    + destruct (rechecked skip_rechecks_inputs x k) eqn:Hrc.
+      * cbn [fst snd xb x_chk x_hash]. split; [reflexivity|]. split; [reflexivity|].
+        split; [intros H; discriminate H|]. split; [intros _ H; discriminate H|].
+        split; [intros _ _ _; repeat split; reflexivity|]. split; [intros _ _ H; discriminate H|].
+        cbn. intros H. discriminate H.
+      * cbn [fst snd xb x_chk x_hash]. split; [reflexivity|]. split; [reflexivity|].
+        split; [intros H; discriminate H|]. split; [intros _ H; discriminate H|].
+        split; [intros _ _ H; discriminate H|].
+        apply pairs_eqb_eq in Hoe.
+        split; [intros _ _ _; rewrite Hoe; repeat split; reflexivity|]. intros _. repeat split; try reflexivity. exact Hoe.
     + rewrite apply_reset_spec. cbn [fst snd xb x_chk x_hash].
       split; [reflexivity|]. split; [reflexivity|].
       split; [intros H; discriminate H|]. split; [intros _ _; repeat split; reflexivity|].
-      split; [intros _ H; discriminate H|]. cbn. intros H. discriminate H.
+      split; [intros _ H; discriminate H|]. split; [intros _ H; discriminate H|]. cbn. intros H. discriminate H.
 Qed.
 
 (* ---- hash cancellation ---- *)
@@ -911,10 +949,9 @@ Proof.
       destruct (checking_outcomes x t x' 2 s sh Htry H2 Hh) as [_ [Hr _]]. contradiction.
     + exfalso. assert (H3 : (3 : N) = 2 \/ (3 : N) = 3) by (right; reflexivity).
       destruct (checking_outcomes x t x' 3 s sh Htry H3 Hh) as [_ [Hr _]]. contradiction.
-  - exfalso. unfold do_xchk in Hstart. destruct (x_chk x) as [k|] eqn:Hk; [|cbn in Hstart; contradiction].
-    fold (do_xchk x t c) in Hstart.
-    destruct (skip_outcomes x t c k Hk) as [_ [Hr _]]. cbv zeta in Hr.
-    unfold do_xchk in Hr. rewrite Hk in Hr. rewrite Hr in Hstart. contradiction.
+  - exfalso. destruct (x_chk x) as [k|] eqn:Hk.
+    + destruct (skip_outcomes x t c k Hk) as [_ [Hr _]]. cbv zeta in Hr. rewrite Hr in Hstart. contradiction.
+    + unfold do_xchk, do_xchk_gen in Hstart. rewrite Hk in Hstart. cbn in Hstart. contradiction.
   - exfalso. unfold do_xend in Hstart. rewrite Hrun in Hstart. cbn in Hstart. contradiction.
 Qed.
 
@@ -971,10 +1008,12 @@ Proof.
   - destruct (x_chk x) as [k|] eqn:Hk.
     + rewrite (do_xchk_spec x t c k Hk). destruct c; cbn [fst]; [apply hash_ok_none; reflexivity|].
       destruct (pairs_eqb (sh_out (k_old k)) (out_ingredients x)) eqn:Hoe; cbn [fst].
-      * apply pairs_eqb_eq in Hoe. destruct Hok as [_ Hb]. split; cbn; intros ? H; [|discriminate H].
-        inversion H; subst. cbn. rewrite <- Hoe. apply Hb. exact Hk.
+      * destruct (rechecked skip_rechecks_inputs x k); cbn [fst].
+        -- destruct Hok as [Ha _]. split; cbn; intros ? H; [apply Ha; exact H|discriminate H].
+        -- apply pairs_eqb_eq in Hoe. destruct Hok as [_ Hb]. split; cbn; intros ? H; [|discriminate H].
+           inversion H; subst. cbn. rewrite <- Hoe. apply Hb. exact Hk.
       * rewrite apply_reset_spec. apply hash_ok_none; reflexivity.
-    + unfold do_xchk. rewrite Hk. exact Hok.
+    + unfold do_xchk, do_xchk_gen. rewrite Hk. exact Hok.
   - destruct (c_run (xb x)) as [r|] eqn:Hrun.
     + destruct c.
       * destruct (cancelled_post_run_hash_not_succeeded x t ok r Hrun) as [_ [Hn _]]. cbv zeta in Hn.
@@ -1015,17 +1054,18 @@ Proof.
 Qed.
 
 (* ====================================================================================== *)
-(* E. What is NOT true: the record of an input replaced while the step is being checked     *)
+(* E. The record of an input replaced while the step is being checked (finding D37)         *)
 (* ====================================================================================== *)
 
 (* The statement one would like for the moment the skip is RECORDED (not only for the moments the
-   files were hashed): the hash kept for c still describes the recorded hash of every input. *)
+   files were hashed): the hash kept for c still describes the recorded hash of every input.  Stated
+   for the code WITHOUT the re-check of the input records (do_xchk_gen false; this is do_xchk as long
+   as the source has no such re-check: skip_rechecks_inputs = false). *)
 Definition skip_record_full : Prop :=
   forall x0 t x1 mid t' x3,
     do_xtry x0 t false = (x1, XRTry 2 false) -> is_checking x1 = true ->
-    forallb xenv_only mid = true -> do_xchk (xrun mid x1) t' false = (x3, XRChk true) ->
-    forall sh f h, x_hash x3 = Some sh -> In (f, h) (sh_inp sh) ->
-      f_hash (files (xb x3) f) = h /\ disk (xb x3) f = h.
+    forallb xenv_only mid = true -> do_xchk_gen false (xrun mid x1) t' false = (x3, XRChk true) ->
+    forall sh f h, x_hash x3 = Some sh -> In (f, h) (sh_inp sh) -> f_hash (files (xb x3) f) = h.
 
 (* Witness (the skip-path analogue of finding D19): consumer 5 holds the hash ([(1,4)], [(9,7)]);
    its input 1 is BUILT by step 8.  While try_skip_job hashes the outputs, step 8 is executed again
@@ -1038,25 +1078,63 @@ Definition skipwin_mid : list xev := map XE rerun_mid.
 
 Lemma skip_record_refuted_by_producer_rerun :
   let x1 := fst (do_xtry skipwin_x0 1 false) in
-  let x3 := fst (do_xchk (xrun skipwin_mid x1) 4 false) in
+  let x2 := xrun skipwin_mid x1 in
+  let x3 := fst (do_xchk_gen false x2 4 false) in
   do_xtry skipwin_x0 1 false = (x1, XRTry 2 false) /\ is_checking x1 = true /\
   forallb xenv_only skipwin_mid = true /\
-  snd (do_xchk (xrun skipwin_mid x1) 4 false) = XRChk true /\
+  snd (do_xchk_gen false x2 4 false) = XRChk true /\
   c_state (xb x3) = SS_SUCCEEDED /\ x_hash x3 = Some (mkSH 1 [(1, 4)] [(9, 7)]) /\
-  f_hash (files (xb x3) 1) = 7 /\ disk (xb x3) 1 = 7 /\ f_state (files (xb x3) 1) = FS_BUILT.
+  f_hash (files (xb x3) 1) = 7 /\ disk (xb x3) 1 = 7 /\ f_state (files (xb x3) 1) = FS_BUILT /\
+  (* with the re-check the same history is NOT recorded as a skip when the source performs it *)
+  (skip_rechecks_inputs = true ->
+     snd (do_xchk_gen true x2 4 false) = XRChk false /\
+     c_state (xb (fst (do_xchk_gen true x2 4 false))) = SS_PENDING).
 Proof.
   cbv zeta. split.
   { rewrite (surjective_pairing (do_xtry skipwin_x0 1 false)) at 1. f_equal; try (vm_compute; reflexivity). }
-  vm_compute. repeat split; reflexivity.
+  split; [vm_compute; reflexivity|]. split; [vm_compute; reflexivity|]. split; [vm_compute; reflexivity|].
+  split; [vm_compute; reflexivity|]. split; [vm_compute; reflexivity|]. split; [vm_compute; reflexivity|].
+  split; [vm_compute; reflexivity|]. split; [vm_compute; reflexivity|].
+  unfold skip_rechecks_inputs. intros H. vm_compute in H. vm_compute. split; first [reflexivity|discriminate H].
 Qed.
 
 Theorem skip_record_full_refuted : ~ skip_record_full.
 Proof.
   intros H. destruct skip_record_refuted_by_producer_rerun as [H1 [H2 [H3 [H4 [_ [H6 [H7 _]]]]]]].
   cbv zeta in *.
-  assert (Hend : do_xchk (xrun skipwin_mid (fst (do_xtry skipwin_x0 1 false))) 4 false =
-                 (fst (do_xchk (xrun skipwin_mid (fst (do_xtry skipwin_x0 1 false))) 4 false), XRChk true)).
-  { rewrite (surjective_pairing (do_xchk _ 4 false)) at 1. rewrite H4. reflexivity. }
-  destruct (H _ _ _ _ _ _ H1 H2 H3 Hend _ 1 4 H6 (or_introl eq_refl)) as [Hr _].
+  assert (Hend : do_xchk_gen false (xrun skipwin_mid (fst (do_xtry skipwin_x0 1 false))) 4 false =
+                 (fst (do_xchk_gen false (xrun skipwin_mid (fst (do_xtry skipwin_x0 1 false))) 4 false), XRChk true)).
+  { rewrite (surjective_pairing (do_xchk_gen false _ 4 false)) at 1. rewrite H4. reflexivity. }
+  pose proof (H _ _ _ _ _ _ H1 H2 H3 Hend _ 1 4 H6 (or_introl eq_refl)) as Hr.
   rewrite H7 in Hr. discriminate Hr.
+Qed.
+
+(* What the re-check gives once the source performs it (skip_rechecks_inputs = true and the
+   generated per-record test has the reviewed meaning): a recorded skip implies that, in the
+   transaction that records it, c has exactly as many input records as the job was created with,
+   every one of them is BUILT or CONFIRMED and carries the hash it had when the job was created. *)
+Lemma skip_recorded_not_overtaken x t k x3 :
+  x_chk x = Some k -> skip_rechecks_inputs = true ->
+  do_xchk x t false = (x3, XRChk true) -> overtaken (xb x) k = false.
+Proof.
+  intros Hk Hr Hend. rewrite (do_xchk_spec x t false k Hk) in Hend.
+  destruct (pairs_eqb _ _); [|rewrite apply_reset_spec in Hend; inversion Hend].
+  unfold rechecked in Hend. rewrite Hr in Hend. cbn [andb] in Hend.
+  destruct (overtaken (xb x) k); [inversion Hend|reflexivity].
+Qed.
+
+Lemma not_overtaken_records w k :
+  (forall st same, overtaken_record_gen st same = negb (posthash_considers_gen st) || negb same) ->
+  overtaken w k = false ->
+  length (attached_inputs w) = length (k_snap k) /\
+  forall f, In f (attached_inputs w) ->
+    posthash_considers_gen (f_state (files w f)) = true /\ sm_get f (k_snap k) = Some (f_hash (files w f)).
+Proof.
+  intros Hspec Hov. unfold overtaken in Hov. apply orb_false_iff in Hov as [Hlen Hall].
+  apply negb_false_iff in Hlen. apply N.eqb_eq in Hlen. apply Nnat.Nat2N.inj in Hlen.
+  split; [exact Hlen|]. intros f Hin.
+  pose proof (existsb_false_forall _ _ Hall f Hin) as Hf. cbn in Hf. rewrite Hspec in Hf.
+  apply orb_false_iff in Hf as [H1 H2]. apply negb_false_iff in H1. apply negb_false_iff in H2.
+  split; [exact H1|]. destruct (sm_get f (k_snap k)) as [h|]; [|discriminate H2].
+  apply N.eqb_eq in H2. rewrite H2. reflexivity.
 Qed.
